@@ -571,7 +571,7 @@ theorem two_way_answered_once (c : Codec) (up : Bool) (reqId code : Nat) : (repl
     | some r => simp
   · simp
 
-/-- negation witness (the silence): with a Hijack that returns nil (tars before fa3d63811) nothing is written, for every code -/
+/-- negation witness (the silence): with a Hijack that returns nil (tars before 3303a3fc8) nothing is written, for every code -/
 example : ∀ code ∈ [404, 502, 503, 504, 500], hijackWith true true .tars 7 code = none := by decide
 
 end XHijack
